@@ -17,12 +17,12 @@ EXPLANATION = ('The mask can influence a tessellation only through (1) the guard
 def check(run):
     funcs, info = engine.load_mir('ibig')
     run.mir_info.append(info)
-    C03.pair_obligations(run, funcs, 'C07')
-    BR.check_direct_build_closure(run, funcs, 'C07')
-    BR.check_integrator_closures(run, funcs, 'C07')
-    BR.check_build_partial_passes_mask(run, funcs, 'C07')
-    SR.all_transitions(run, funcs, 'C07')       # build(mask) -> with_faces() keeps the mask and the cells
-    BR.check_face_loops(run, funcs, 'C07')      # the same rule in the symmetric face integrals (anchor convex_cell.rs:646-657)
+    run.guard(C03.pair_obligations, funcs, 'C07')
+    run.guard(BR.check_direct_build_closure, funcs, 'C07')
+    run.guard(BR.check_integrator_closures, funcs, 'C07')
+    run.guard(BR.check_build_partial_passes_mask, funcs, 'C07')
+    run.guard(SR.all_transitions, funcs, 'C07')       # build(mask) -> with_faces() keeps the mask and the cells
+    run.guard(BR.check_face_loops, funcs, 'C07')      # the same rule in the symmetric face integrals (anchor convex_cell.rs:646-657)
     run.assume('the construction of one ConvexCell (r-tree search + clipping) is a function of the arguments of ConvexCell::build: not encoded')
     return run.finish(LEVEL, EXPLANATION, trusted=['rustc -Zunpretty=mir', 'z3 5.1.0 / 4.8.12, cvc5 1.0.3', 'std Option/Vec/iterator models of mirsym'])
 
